@@ -34,6 +34,7 @@ type g2lFn struct {
 	valPtr  map[types.Object]bool // pointer variables held as their pointee (go2lean_ptr.go)
 	fnObj   *types.Func           // the function being translated (go2lean_ptr.go)
 	inOut   []*types.Var          // pointer parameters returned as extra results (go2lean_inout.go)
+	own     *g2lOwnState          // owned locals, cursors (go2lean_own.go)
 }
 
 func (f *g2lFn) fail(format string, a ...any) {
